@@ -7,6 +7,14 @@ import mpmath as mp
 mp.mp.dps = 150
 
 
+def _sqrt(a):
+    if a < 0:
+        if a > -mp.mpf(10) ** (-100):
+            return mp.mpf(0)
+        raise ValueError("sqrt of negative number")
+    return mp.sqrt(a)
+
+
 def mpf(x):
     from fractions import Fraction
     if isinstance(x, Fraction):
@@ -66,7 +74,7 @@ class DagEval:
         if op == "tan":
             return mp.tan(a)
         if op == "sqrt":
-            return mp.sqrt(a)
+            return _sqrt(a)
         if op == "abs":
             return abs(a)
         if op == "atan2":
@@ -118,7 +126,7 @@ def gen_values(alg, values):
         if k == "trig":
             vals[name] = mp.sin(args[0]) if role == "sin" else mp.cos(args[0])
         elif k == "sqrt":
-            vals[name] = mp.sqrt(args[0])
+            vals[name] = _sqrt(args[0])
         elif k == "inv":
             vals[name] = 1 / args[0]
         elif k == "abs":
